@@ -848,6 +848,26 @@ func TestC05(t *testing.T) {
 		c05Begin(tr, os)
 		c05OpSingle(tr, os, p1)
 	}
+	// ---- corpus: the dust clause as written (dust < #fills) fails on a D2 book — quote_dust_counterexample -------------
+	// sells 1000 @ 0.1 and 5 x 10 @ 0.1 (one batch), buy 1045 @ 0.2, last price 0.09: quoteCoinDiff 5 after 2 fills (45 base dropped)
+	{
+		p1, p2, lp := c05Dec("0.1"), c05Dec("0.2"), c05Dec("0.09")
+		os := []*c05Order{c05New(0, 2, 0, 0, amm.Sell, p1, sdkmath.NewInt(1000), sdkmath.NewInt(1000))}
+		for i := 1; i <= 5; i++ {
+			os = append(os, c05New(i, 2, 0, 0, amm.Sell, p1, sdkmath.NewInt(10), sdkmath.NewInt(10)))
+		}
+		os = append(os, c05New(6, 2, 0, 0, amm.Buy, p2, sdkmath.NewInt(1045), amm.OfferCoinAmount(amm.Buy, p2, sdkmath.NewInt(1045))))
+		c05Begin(tr, os)
+		c05OpMatch(tr, os, lp)
+		// the same through MatchAtSinglePrice at 0.1 with user orders of one batch
+		os = []*c05Order{c05New(0, 0, 1, 2, amm.Sell, p1, sdkmath.NewInt(1000), sdkmath.NewInt(1000))}
+		for i := 1; i <= 5; i++ {
+			os = append(os, c05New(i, 0, uint64(i+1), 2, amm.Sell, p1, sdkmath.NewInt(10), sdkmath.NewInt(10)))
+		}
+		os = append(os, c05New(6, 0, 7, 2, amm.Buy, p2, sdkmath.NewInt(1045), amm.OfferCoinAmount(amm.Buy, p2, sdkmath.NewInt(1045))))
+		c05Begin(tr, os)
+		c05OpSingle(tr, os, p1)
+	}
 	// a few books of the repository's own tests (match_test.go) as anchors
 	{
 		one := c05Dec("1.0")
